@@ -67,6 +67,8 @@ func checkC01(c *Ctx) {
 	c.sremoveContract()
 	c.subscriberIdentityIsEquality()
 	lockBalance(c, func(cl string) bool { return strings.HasPrefix(cl, "topics.") }, "topic-store")
+	// what goes out has the length Len() says and the bytes the encoder counted (T1 length tables, B14)
+	c.codecLengthTables()
 }
 
 // fanOut: the delivery loop of a publish. The rule works on the supergraph of fn with its
